@@ -170,6 +170,22 @@ CLAIMS["C20"] = dict(
               "is_thematic_break and the YAML loader are assumed opaque. NOT covered: 'enabling an extension changes the parse only of "
               "documents that contain its syntax' (parser-level).")
 
+CLAIMS["C05"] = dict(
+    text="Proof of the position-carrying primitives only (a fragment of the property): MarkdownToken.__init__ and the container / leaf / inline base classes give a token built from a position marker exactly (marker.line_number, marker.index_number + marker.index_indent + 1); report_next_token_error / report_next_line_error report exactly the token's (or the line's) position plus the rule's explicit deltas, once, and add_triggered_rule records exactly that position; the scanning primitives the column arithmetic is built from (is_character_at_index*, extract_spaces, extract_until_spaces, collect_while_character) are index-safe, terminate (variant) and return exactly the maximal run from the start index (loop invariants, no bound); adjust_for_newlines restarts the column after the last newline; after a full reference link / image whose label spans lines the column is (leading whitespace the paragraph keeps for that line) + (characters of the label's last line) + 2 and the line moves by the number of newlines in the label (__calculate_full_deltas; D14 fixed); the front-matter token sits at (1,1) and the caller continues at the right line number.",
+    note=TB + "NOT covered: which marker each of the ~30 token kinds is built from and the rest of the per-construct delta arithmetic of the inline processor (outside the subset); block tokens in non-decreasing line order; 'the source text at that position is the opening text'. Observation D15 (DESIGN.md 11.3): inside a list item inline elements on continuation lines get a column that is too small by the list indent -- no obligation covers it, golden tests pin it.")
+
+CLAIMS["C04"] = dict(
+    text="Proof of the nesting discipline at the places that create end tokens and shrink or rewind the block stack (a fragment of the property): an EndMarkdownToken records the start token it closes and can only be built for a token that wants one (EndMarkdownToken.__init__, both generators); in the parser end tokens are built only by those generators (structural); the block stack is changed only by append / del [-1] (one structural obligation per mutation site) and every end token generated from a stack entry comes from the top entry, which is then removed; __remove_top_element_from_stack removes exactly the top entry, keeps everything below and returns the end token of that entry's markdown token; the LRD rewind leaves the stack exactly equal to the surviving prefix or to the snapshot, entry for entry (loop invariants); after an emphasis pair is matched no delimiter strictly inside the pair stays active, so pairs cannot cross (EmphasisHelper.__mark_used_tokens, loop invariant); container / leaf / inline base classes fix the token class and containers always require an end token.",
+    note=TB + 'NOT covered: that the parser calls these functions in an order that yields a balanced stream for every document (a postcondition of the whole block pass, not within reach), that nothing is left open at the end of the document, that a new-list-item token appears directly inside its list, link/image nesting, and the stacks kept by rules and generators.')
+
+CLAIMS["C08"] = dict(
+    text="Proof of what a fix is allowed to touch (a fragment of the property): the fix vocabulary is closed -- every (rule, token field) a rule can pass to register_fix_token_request, the field name resolved through locals, parameters and queued Fixer records, is in the whitelist specs/fix_vocabulary.json, and token ranges are replaced only by MD012/MD031/MD046 (one structural obligation per call site); _modify_token of all 15 token classes stores the requested value into exactly the attribute behind the named field and nothing else but the derived extra_data, unknown field or ill-typed value changes nothing; the replacement splice __apply_replacement_fix keeps every token before and after the replaced range exactly once and in order, moves the line number of exactly the tokens after the range by (lines of the replacement - lines replaced) and moves every pragma line below the range -- also those of the alternate '<!---' prefix, kept under negative keys -- by the same amount while every other pragma stays, none lost or overwritten (loop invariants, no bound; D12, D17 fixed); conflicting requests are refused, never silently resolved (__look_for_collisions raises iff a token of the range is already edited or replaced, __apply_replacements checks ALL replacements before applying the first and applies each once in order, __apply_token_fix applies every requested edit once, in order, and aborts when the token refuses one); a fix pass cut short by a failing rule or the parser has not written the user's file; in fix mode every line handed to PluginManager.next_line is written to the output of the pass exactly once, whichever context the last rule was given (D21, data loss, fixed); every character the regenerator deletes from its output is reserved by the parser (fails: known finding D6).",
+    note=TB + 'Known finding D6 (thorn / U+8268 / U+8269 deleted by any token-level fix). NOT covered: that editing a style field preserves the parse (indent_level ...), the regenerator itself (incl. where it re-inserts pragma lines, D17(a)), that the value a rule writes into a text-carrying field equals the old text up to whitespace. Meaning preservation of the whole pipeline is not decided by this check.')
+
+CLAIMS["C06"] = dict(
+    text="Proof for the eight rules brought under contract (a fragment: the property quantifies over all 46 rules), each against a spec automaton transcribed from the rule's documentation, for all token / line sequences and all configurations: MD013 (line length: limit by element kind, headings / code_blocks switches, long-last-word exemption, strict; the quick-reject threshold established by initialize_from_config never exceeds a limit), MD001 (heading increment, incl. the front-matter title and the value the fix requests), MD025 (single top-level heading), MD035 (thematic-break style, consistent mode), MD047 (file ends with a newline, reported at the end of the last line; fix appends exactly one newline), MD048 (code-fence style, consistent mode, fix character), MD004 (unordered-list marker: configured / consistent / per-level `sublist` expectation kept in a map, nesting level, fix character), MD041 (first element: nothing after the first verdict, heading level, every reported position has line >= 1 and column >= 1; D24 fixed): each step reports exactly once iff the documented condition holds in the automaton state, at the token's position, and updates the state as documented; every starting_new_file re-initialises that state; for all 46 rules the configuration items read by initialize_from_config (names, types, defaults) equal the documented table (shared with C17).",
+    note=TB + "Known finding D13 (MD013 stern mode inverted against its documentation). NOT covered: the trigger conditions of the other 38 rules (their token-driven state machines need the token stream specified first, C04/C05 in full); which leaf token a line belongs to (MD013) is taken from the rule's own bookkeeping; string comparisons of texts longer than one character are by identity of the string value in the encoding (the specification uses the same comparison).")
+
 NA = {
     "C01": "totality of the ~60 kLoC parser is a postcondition of TokenizedMarkdown.transform; no contract chain within reach without a Python deductive verifier (DESIGN.md 7)",
     "C02": "round-trip of parser + 5 kLoC regenerator needs the token stream specified as an encoding of the document (C03+C04+C05 in full) first (DESIGN.md 7)",
